@@ -131,6 +131,30 @@ for role in ('server', 'client'):
         bad = [n for n in adds if (n in DB['enc'] and (is_chacha(n) or is_cbc(n))) or (n in DB['mac'] and is_etm(n))]
         if bad:
             fail(inp, {'recommended for addition': bad}, {'recommended for addition': 'no ChaCha20-Poly1305 / CBC / ETM algorithm'})
+        # the JSON view of the same peer: same marks, same advisory note, same suppression of additions
+        if (cases %% 3 == 0) or not cb:
+            kex = H.make_kex(kexl, ['ssh-ed25519'], enc, mac)
+            stj, js = H.run_output(kex=kex, client_host=('10.0.0.1' if role == 'client' else None), json_out=True)
+            doc = json.loads(js)
+            jmarked = sorted(set((c, e['algorithm']) for c in ('enc', 'mac') for e in doc[c] if any(MARK in x for v in e['notes'].values() for x in v)))
+            if [p for p in jmarked if known(p)] != [p for p in want_marked if known(p)]:
+                fail(dict(inp, view='json'), {'marked': jmarked}, {'marked': want_marked}, 'json-marks')
+            jadv = [n for n in doc.get('additional_notes', []) if 'strict key exchange' in n]
+            if bool(jadv) != bool(strict and vul):
+                fail(dict(inp, view='json'), {'advisory': jadv[:1]}, {'advisory expected': bool(strict and vul)}, 'json-advisory')
+            jadds = [e['name'] for lvl in doc.get('recommendations', {}).values() for act, cats in lvl.items() if act == 'add' for ents in cats.values() for e in ents]
+            jbad = [n for n in jadds if (n in DB['enc'] and (is_chacha(n) or is_cbc(n))) or (n in DB['mac'] and is_etm(n))]
+            if jbad:
+                fail(dict(inp, view='json'), {'recommended for addition': jbad}, 'no ChaCha20-Poly1305 / CBC / ETM algorithm', 'json-suppression')
+# a server that is otherwise flawless: the advisory note is still shown (text and JSON) when it has the marker and names something
+for role in ('server',):
+    for kw in ({}, dict(batch=True), dict(verbose=True)):
+        cases += 1
+        kex = H.make_kex(['sntrup761x25519-sha512@openssh.com', 'kex-strict-s-v00@openssh.com'], ['ssh-ed25519'], ['chacha20-poly1305@openssh.com', 'aes256-gcm@openssh.com'], ['hmac-sha2-512-etm@openssh.com'])
+        status, text = H.run_output(kex=kex, banner='SSH-2.0-OpenSSH_9.9', **kw)
+        adv = [l for l in text.split('\n') if 'strict key exchange' in l and '(nfo)' in l]
+        if len(adv) != 1 or 'chacha20-poly1305@openssh.com' not in adv[0]:
+            fail({'peer': 'flawless with marker and chacha20', 'options': kw}, {'advisory': adv, 'status': status}, 'one advisory note naming chacha20-poly1305@openssh.com', 'advisory-on-flawless-peer')
 print(json.dumps({'cases': cases, 'failures': failures}))
 '''
 
